@@ -47,3 +47,34 @@ claim("C27", "definite-assignment dataflow under enumerated valuations of never-
       "per-iteration seed sequence is popped on every exit of the iteration (continue, break, return), and that enumerated "
       "options are validated before use. Correctness of the numbers produced by each combination is not decided.", TRUST,
       "DESIGN.md section 4, C27")
+
+claim("C01", "exhaustive constant evaluation of the mode/capability tables against their XOR group law; symbolic extraction of each composite's capability formula",
+      "Decides the mode/capability bookkeeping of the operator algebra: all 124+ table entries and the direction selectors are "
+      "checked by complete enumeration (exhaustive), and every composite class advertises exactly the capability the property "
+      "prescribes (sum: (TIMES|ADJOINT) & all; chain/block: 15 & all over the stored collection; adapter/inversion enabler via "
+      "the tables; wrappers = wrapped). The numerical action of leaf operators and the simplifiers' arithmetic are not decided.",
+      TRUST, "DESIGN.md section 4, C01")
+
+claim("C06", "sibling/table comparison of the setattr-generated dunder tables; dominance of the domain-identity check; argument-order tracing along the vdot call chain",
+      "Decides that field arithmetic is delegated name-preservingly to the array layer (so a-b can never run __add__), that "
+      "operands on different domains are rejected before any computation, and that the first argument of every dot product is "
+      "the conjugated one along the whole call chain (invisible to tests on real fields). Volume factors and norms are numerical "
+      "and not decided.", TRUST, "DESIGN.md section 4, C06")
+
+claim("C23", "rank-taint (F-UNIFORM) over reaching definitions, guard extraction for the send/receive roles, protocol-sequence comparison of _send/_recv",
+      "Checks the four premises of the deadlock-freedom / partition-independence argument on the source: all tasks execute the same "
+      "pair-step sequence (no rank- or data-dependent loop condition or collective), send and receive of a step address each "
+      "other and are mutually exclusive, the message sub-protocols match element by element, and both additions combine the "
+      "accumulator slot with the partner slot. With the premises, the induction in DESIGN.md gives the property for every task "
+      "count and interleaving.", TRUST, "DESIGN.md section 4, C23")
+
+claim("C32", "data-dependence shape check (F-SHAPE) of leapfrog_step via reaching definitions",
+      "Decides the integrator clause: leapfrog_step is a palindromic kick-drift-kick composition of shears with equal half steps "
+      "(each kick reads only the then-current position, the drift only the half-step momentum), hence time-reversible and "
+      "volume-preserving for every potential, step size and mass matrix. Invariance of the target under the full HMC/NUTS "
+      "transition is statistical and not decided.", TRUST, "DESIGN.md section 4, C32")
+
+claim("C33", "table check of Vector's dunder bindings and of the operand order of the binary-op factories",
+      "Decides that every arithmetic/comparison/unary dunder of the pytree vector is bound to its own operator with forward "
+      "variants applying op(lhs, rhs) and reflected variants op(rhs, lhs). Reductions, norms and smap/lmap==vmap are numerical "
+      "and not decided.", TRUST, "DESIGN.md section 4, C33")
